@@ -200,6 +200,7 @@ func concPart(c *fw.Ctx, only *concCase) {
 					c.Violation("C17:conc:harness-nondeterminism", "schedules", "same schedule, different outcome: "+sc.Name, concCase{sc, ch.Choices()})
 					return
 				}
+				c.Count("conc_schedules_not_linearizable:"+sc.Name, 1)
 				c.Violation("C17:conc:not-linearizable:"+sc.Name, "schedules",
 					fmt.Sprintf("scenario %s, schedule %v (preemptions %d): results %s, final state %s: no sequential order of the operations explains this: %s",
 						sc.Name, ex.sched.Schedule, ex.sched.Preemptions, obsString(u, ex.obs), ex.dump.Key(), why), concCase{sc, ch.Choices()})
